@@ -215,6 +215,14 @@ func c18RecursiveFns(w *World, fns []*ssa.Function) []*ssa.Function {
 					out = append(out, t)
 				}
 			}
+			// calls through an interface of the module (the extent tree's nodes): the implementations in scope
+			for _, c := range calls(g, false, func(c ssa.CallInstruction) bool { return c.Common().IsInvoke() }) {
+				for _, t := range w.calleesCHA(c) {
+					if inScope[t] {
+						out = append(out, t)
+					}
+				}
+			}
 		}
 		return out
 	}
@@ -339,6 +347,9 @@ func c18BoundedRecursion(w *World, r *Report, fns []*ssa.Function) {
 		return out
 	}
 	for _, f := range rec {
+		if f.Synthetic != "" {
+			continue // pointer-receiver wrapper of a value method: the method itself is judged
+		}
 		name := fnName(f)
 		back := staticCallsTo(f, func(t *ssa.Function) bool { return sameCycle(f, t) })
 		bounded := ""
@@ -472,10 +483,87 @@ func c18BoundedRecursion(w *World, r *Report, fns []*ssa.Function) {
 				}
 			}
 		}
+		// (d) a level kept in the object: the recursion goes through a method of another node object, and each such call
+		// is dominated by a test that the callee object's level equals this object's level minus a constant (the other
+		// outcome returns an error); the level is an unsigned field, so the chain of calls ends
+		if bounded == "" && len(f.Params) > 0 {
+			recv := f.Params[0]
+			var invokes []ssa.CallInstruction
+			for _, g := range withClosures(f) {
+				for _, c := range calls(g, false, func(c ssa.CallInstruction) bool { return c.Common().IsInvoke() }) {
+					for _, t := range w.calleesCHA(c) {
+						if recSet[t] {
+							invokes = append(invokes, c)
+							break
+						}
+					}
+				}
+			}
+			allGuarded := len(invokes) > 0 && len(back) == 0
+			for _, c := range invokes {
+				x := c.Common().Value
+				guarded := false
+				for _, b := range c.Parent().Blocks {
+					iff, ok := lastInstr(b).(*ssa.If)
+					if !ok {
+						continue
+					}
+					bin, ok := iff.Cond.(*ssa.BinOp)
+					if !ok || (bin.Op != token.NEQ && bin.Op != token.EQL) {
+						continue
+					}
+					okIdx := 1
+					if bin.Op == token.EQL {
+						okIdx = 0
+					}
+					for _, sides := range [][2]ssa.Value{{bin.X, bin.Y}, {bin.Y, bin.X}} {
+						lv, rv := stripConv(sides[0]), stripConv(sides[1])
+						// lv: a method result on x (or a field of x); rv: recv.field - const
+						fromX := false
+						if lc, ok := lv.(*ssa.Call); ok && lc.Call.IsInvoke() && lc.Call.Value == x {
+							fromX = true
+						}
+						sub, ok := rv.(*ssa.BinOp)
+						if !fromX || !ok || sub.Op != token.SUB {
+							continue
+						}
+						if k, isC := constInt(sub.Y); !isC || k <= 0 {
+							continue
+						}
+						pr := w.prov(sub.X, provOpts{})
+						fromRecv := false
+						for _, rt := range pr.Roots {
+							if rt.Kind == RField {
+								fromRecv = true
+							}
+							if rt.Kind == RParam && rt.Param == recv {
+								fromRecv = true
+							}
+						}
+						if bt, isB := sub.X.Type().Underlying().(*types.Basic); !isB || bt.Info()&types.IsUnsigned == 0 {
+							fromRecv = false
+						}
+						if fromRecv && edgeDominates(b, okIdx, c.Block()) && blockLeadsToErrorReturn(b.Succs[1-okIdx], 0) {
+							guarded = true
+						}
+					}
+				}
+				if !guarded {
+					allGuarded = false
+				}
+			}
+			if allGuarded {
+				bounded = "level field of the receiver: each nested node must be exactly one level lower"
+			}
+		}
 		r.Check(bounded != "", "C18-h", name, "recursion is bounded", w.relFile(f.Pos()), bounded,
 			"this function can call itself again (directly or through the functions it calls) and none of its parameters bounds the recursion (no counter that is compared with a limit and passed on changed by a constant, no list of ancestors extended and searched): a symbolic link that leads back to itself, or a directory that contains one of its ancestors, recurses until the goroutine stack overflows, which kills the process")
 	}
 	if len(rec) == 0 {
 		r.Ok("C18-h", "filesystem readers", "no recursive function in the reader scope", "filesystem", "")
 	}
+}
+
+func sameCycleOrSelf(reaches map[*ssa.Function]map[*ssa.Function]bool, a, b *ssa.Function) bool {
+	return a == b || (reaches[a][b] && reaches[b][a])
 }
